@@ -10,6 +10,47 @@ A static whose initialiser reads nothing of the call (tables, constants) is not 
 from .tree import walk, pp
 
 
+import re
+
+# relative accuracy each numeric property demands of its double-precision instantiations (from the statements): a double quantity that passes
+# through single precision (relative spacing 6e-8) cannot meet it
+PRECISION = {
+    'C01': (1.5e-10, '1 mm on Earth-centred coordinates of 6.4e6 m'),
+    'C02': (1e-8, '1 mm on local coordinates up to 100 km, distances preserved'),
+    'C03': (1e-11, '1e-11 rad on the inverse map'),
+    'C04': (1e-9, 'recovery to 1e-9 relative, invariance to the preconditioning scale'),
+    'C05': (1e-9, 'exact recovery of a translation, invariance to the preconditioning scale'),
+    'C07': (1e-10, 'normal-equation residual vanishing to (double) rounding'),
+    'C09': (1e-9, 'exact normals on planar clouds'),
+    'C10': (1e-9, 'mutual inverses of the angle / rotation / coordinate conversions'),
+    'C11': (1e-12, 'planar components kept exactly'),
+    'C12': (1e-9, 'derivative and covariance identities'),
+    'C20': (1e-12, 'containment decided exactly on faces, edges and corners'),
+}
+FLOAT_SPACING = 6e-8
+
+
+def narrowings(f):
+    """(kind, text, loc) for every place of a non-float instantiation where a non-constant double value is converted to float, or an Eigen
+    expression computed in float is widened to double"""
+    if re.search(r'<[^>]*\bfloat\b', f['q']) or re.search(r'<[^>]*\bfloat\b', f.get('cls') or ''):
+        return []
+    out = []
+    nodes = list(walk(f.get('body'))) + [y for i in f.get('inits', []) if i.get('e') is not None for y in walk(i['e'])]
+    for y in nodes:
+        if not isinstance(y, dict):
+            continue
+        if y.get('k') == 'Cast' and y.get('ck') == 'FloatingCast' and (y.get('t') or {}).get('bits') == 32 and 'cv' not in y and 'cv' not in (y.get('e') or {}):
+            out.append(('a double value is converted to float', pp(y)[:100], y.get('loc')))
+        if y.get('k') == 'MCall' and y.get('m') == 'cast':
+            mm = re.search(r'scalar_cast_op<([^,<>]+), ([^<>]+?)>', (y.get('t') or {}).get('s', ''))
+            if mm and mm.group(1).strip() == 'float' and mm.group(2).strip() in ('double', 'long double'):
+                out.append(('an expression computed in float is widened to double', pp(y)[:100], y.get('loc')))
+            if mm and mm.group(2).strip() == 'float' and mm.group(1).strip() in ('double', 'long double'):
+                out.append(('a double expression is cast to float', pp(y)[:100], y.get('loc')))
+    return out
+
+
 def per_call_reads(init):
     out = []
     for y in walk(init):
@@ -65,4 +106,18 @@ def sweep(fx, R):
                     R.holds('H1', name, 'decided by the static-cache rule (E-PURE) of this property', fx.rel(f['loc']), 'E-PURE')
                 else:
                     R.undecided('H1', name, 'the function keeps state across calls in the non-const static `%s`; its results were read as functions of the arguments only' % v['name'])
+    # ---- H2: single precision inside a double computation -----------------------------------------------------------------
+    prec = PRECISION.get(getattr(R, 'prop', None))
+    if prec is not None:
+        n_found = 0
+        for f in sorted(fns, key=lambda f: f['q']):
+            for (kind, text, loc) in narrowings(f):
+                n_found += 1
+                if n_found > 4:
+                    break
+                R.violated('H2', '%s:single-precision:%s' % (f['q'].split('(')[0], (loc or '').split('/')[-1]), 'in %s %s (`%s`): single precision carries a relative error of %.0e, the property demands %.1e (%s) '
+                           'of the double instantiations - results that look right at the 1e-7 level are outside the statement' % (f['q'].split('(')[0], kind, text, FLOAT_SPACING, prec[0], prec[1]),
+                           fx.rel(loc or f['loc']), 'E-INT')
+        if not n_found:
+            R.holds('H2', 'precision sweep', 'no double value passes through single precision in the %d function bodies read (non-float instantiations)' % len(fns), None, 'E-INT')
     R.holds('H1', 'hidden-state sweep', '%d function bodies (the ones this check read and their in-repo callees): %d function-local static(s)' % (len(fns), found), None, 'E-PURE')
